@@ -657,7 +657,12 @@ impl Story {
             // the temporary context, but attempt to create them globally
             // var prioritiseHigherInCallStack = _temporaryEvaluationContainer
             // != null;
-            let assigned_val = assigned_val.into_any().downcast::<Value>().unwrap();
+            let Ok(assigned_val) = assigned_val.into_any().downcast::<Value>() else {
+                return Err(StoryError::InvalidStoryState(format!(
+                    "Cannot assign to '{}': the expression has no value. Did a function called here forget to 'return' one?",
+                    var_ass.variable_name
+                )));
+            };
             self.get_state_mut()
                 .variables_state
                 .assign(var_ass, assigned_val)?;
